@@ -62,10 +62,33 @@ type PubVariant struct {
 	// document when Prior < 0) and the publish under test share one
 	// *html.PublishShowOptions value.
 	SameOptions bool `json:"same_options,omitempty"`
+	// Edits: API edits applied to the shared Document value between the
+	// earlier publish and the publish under test (SameObject variants).
+	Edits []PubEdit `json:"edits,omitempty"`
 	// RealWriter: the publish under test goes through the library's own
 	// DirectoryFileWriter into a temporary directory instead of the
 	// simulated disk; the files are read back afterwards.
 	RealWriter bool `json:"real_writer,omitempty"`
+}
+
+type PubEdit struct {
+	Ptr string `json:"ptr"`
+	Op  string `json:"op"` // "adddeath" | "deldeath"
+}
+
+func applyPubEdits(doc *gedcom.Document, edits []PubEdit) {
+	for _, e := range edits {
+		ind, ok := doc.NodeByPointer(e.Ptr).(*gedcom.IndividualNode)
+		if !ok || ind == nil {
+			continue
+		}
+		switch e.Op {
+		case "adddeath":
+			ind.AddDeathDate("2 Feb 1999")
+		case "deldeath":
+			gedcom.DeleteNodesWithTag(ind, gedcom.TagDeath)
+		}
+	}
 }
 
 type DiskFault struct {
@@ -91,6 +114,9 @@ type PublishCfg struct {
 	// compare (process-history independence).
 	FreshProcess bool         `json:"fresh_process,omitempty"`
 	People       []LivingInfo `json:"people,omitempty"`
+	// EditedBetween: the document is edited between two publishes (People
+	// describes the final state; the D/D' comparison does not apply)
+	EditedBetween bool `json:"edited_between,omitempty"`
 }
 
 // ---------------------------------------------------------------------------
